@@ -94,18 +94,22 @@ func init() {
 	g2lUnits = append(g2lUnits, &g2lUnit{
 		out: "FnNote", ns: "Note", pkgDir: "sumdb/note",
 		imports:     []string{"ModVerif.Basic.GoRtNote", "ModVerif.Generated.Facts"},
-		structNames: []string{"Signature", "Note", "nameHash", "Verifier"},
-		ifaceStructs: map[string]string{"Verifier": "/-- `type Verifier interface` -/\nstructure Verifier where\n  Name : Bytes\n  KeyHash : Int\n  Verify : Bytes → Bytes → Bool\ninstance : Inhabited Verifier := ⟨{ Name := [], KeyHash := 0, Verify := fun _ _ => false }⟩\n"},
+		structNames: []string{"Signature", "Note", "nameHash", "Verifier", "Signer"},
+		ifaceStructs: map[string]string{
+			"Verifier": "/-- `type Verifier interface` -/\nstructure Verifier where\n  Name : Bytes\n  KeyHash : Int\n  Verify : Bytes → Bytes → Bool\ninstance : Inhabited Verifier := ⟨{ Name := [], KeyHash := 0, Verify := fun _ _ => false }⟩\n",
+			"Signer":   "/-- `type Signer interface` -/\nstructure Signer where\n  Name : Bytes\n  KeyHash : Int\n  Sign : Bytes → (Bytes × Option String)\ninstance : Inhabited Signer := ⟨{ Name := [], KeyHash := 0, Sign := fun _ => ([], none) }⟩\n",
+		},
 		ifaces:       map[string]string{"Verifiers": "Bytes → Int → (Verifier × Option String)"},
 		nonNilIfaces: map[string]bool{"Verifiers": true},
 		errCarry:     map[string]bool{"UnverifiedNoteError": true},
 		exclude:      map[string]bool{"VerifierList": true},
 		errFields:    map[string]bool{"InvalidSignatureError": true},
-		fns:          []string{"isValidName", "chop", "Open"},
+		fns:          []string{"isValidName", "chop", "Open", "Sign", "keyHash"},
+		accumTypes:   map[string]bool{"hash.Hash": true},
 		absFuncs:     map[string]string{"unicode.IsSpace": "isSpace"},
-		absCalls:     map[string]string{"base64.StdEncoding.DecodeString": "b64dec"},
-		stdCalls:     map[string]stdFn{"binary.BigEndian.Uint32": {"beUint32", true}},
-		absSigs:      map[string]string{"isSpace": "Int → Bool", "b64dec": "Bytes → (Bytes × Option String)"},
+		absCalls:     map[string]string{"base64.StdEncoding.DecodeString": "b64dec", "base64.StdEncoding.EncodeToString": "b64enc", "h.Sum": "shaSum:recv"},
+		stdCalls:     map[string]stdFn{"binary.BigEndian.Uint32": {"beUint32", true}, "sha256.New": {"emptyBytesN", false}},
+		absSigs:      map[string]string{"isSpace": "Int → Bool", "b64dec": "Bytes → (Bytes × Option String)", "b64enc": "Bytes → Bytes", "shaSum": "Bytes → Bytes → Bytes"},
 		pkgVars:      map[string]string{"sigSplit": "(ModVerif.Generated.note_sigSplit)", "sigPrefix": "(ModVerif.Generated.note_sigPrefix)"},
 	})
 }
